@@ -225,7 +225,7 @@ func evalPath(disc string, alpha, path []Sym) (last []Finding, legal bool) {
 			last = append(last, checkOutcome(s, o, exact, bud, vac)...)
 		}
 	}
-	last = append(last, CheckState(w, m, illegalIn(m, alpha), &st, vac)...)
+	last = append(last, CheckState(w, m, illegalIn(m, alpha), &st, vac, func() *World { w2, _ := replayPath(disc, path); return w2 })...)
 	return last, true
 }
 
@@ -311,7 +311,8 @@ func (e *explorer) expand(frontier []node, depth int) (next []node, complete boo
 			e.recs = append(e.recs, rec{nd.idx, int16(si)})
 			r.States++
 			ill := illegalIn(m, e.alpha)
-			fs = append(fs, CheckState(w, m, ill, &e.st, r.Vacuity)...)
+			full := append(append([]Sym(nil), base...), s)
+			fs = append(fs, CheckState(w, m, ill, &e.st, r.Vacuity, func() *World { w2, _ := replayPath(e.disc, full); return w2 })...)
 			r.Transitions += int64(len(ill))
 			r.Rejected["illegal_call_refused_without_effect"] += int64(len(ill))
 			if len(fs) > 0 {
@@ -343,7 +344,7 @@ func (e *explorer) run(maxDepth int) {
 	e.seen.Add(stateHash(e.disc, w, m))
 	e.recs = append(e.recs, rec{-1, -1})
 	r.States++
-	for _, f := range CheckState(w, m, illegalIn(m, e.alpha), &e.st, r.Vacuity) {
+	for _, f := range CheckState(w, m, illegalIn(m, e.alpha), &e.st, r.Vacuity, func() *World { w2, _ := replayPath(e.disc, nil); return w2 }) {
 		e.report(f, nil)
 	}
 	frontier := []node{{0, m}}
